@@ -375,6 +375,15 @@ impl RoundTrip {
                         continue;
                     }
                 };
+                // an indexed entry is found under its key, with its own number
+                if row.left >= 0 {
+                    let key = ref_unescape(&row.surface);
+                    let hit = lex.lookup(key.as_bytes(), 0).any(|e| e.end == key.len() && e.word_id == wid);
+                    if !hit {
+                        let got: Vec<(usize, u32)> = lex.lookup(key.as_bytes(), 0).map(|e| (e.end, e.word_id.as_raw())).collect();
+                        o.fail(Failure::new("not-found-under-its-key", format!("{}: looking up the key returns {:x?}, not the entry itself ({:#x})", c2, got, wid.as_raw())));
+                    }
+                }
                 let (l, r, c) = lex.get_word_param(wid);
                 let auto_cost = dic > 0 && row.cost == -32768;
                 if l as i32 != row.left || r as i32 != row.right || (!auto_cost && c as i32 != row.cost) {
